@@ -90,6 +90,15 @@ def gen_prog(r, sid, tier):
                 tog.append(("env", r.choice(names), r.choice(vals)))
         pos = r.below(len(ops) + 1)
         ops[pos:pos] = tog
+    if r.chance(1, 5):
+        # cwd() called more than once, a relative directory after an earlier setting (possibly with a clone in
+        # between): plain edits, the last one wins and is not resolved against the earlier one
+        pos = r.below(len(ops) + 1)
+        ops.insert(pos, ("cwd", r.choice([b"$WD/sub", b"sub", b"/", b"$WD"])))
+        pos2 = pos + 1 + r.below(len(ops) - pos)
+        ops.insert(pos2, ("cwd", r.choice([b"sub", b"sub", b".", b"$WD/sub"])))
+        if r.chance(1, 3):
+            ops.insert(pos + 1 + r.below(pos2 - pos), ("clone",))
     t_force = None
     if r.chance(1, 6):
         # detached() before clone(): the clone is as detached as the original (observable on the Popen of popen())
